@@ -371,6 +371,13 @@ func vfGroupLogRun(t testing.TB, w *vfRWorld, sc vfScript) []map[string]any {
 				}
 				ev["out"] = got
 				ev["has"] = nameSet(st.D)
+				full := []int{}
+				if fch, ferr := mss(st.D).ListEvents(ctx, nil, nil, false); ferr == nil {
+					for e := range fch {
+						full = append(full, nameOf(e.EventContext.Id))
+					}
+				}
+				ev["full"] = full
 				break
 			}
 			ch, err := m.ListEvents(ctx, id(st.X), id(st.Y), st.S == "rev")
@@ -389,6 +396,13 @@ func vfGroupLogRun(t testing.TB, w *vfRWorld, sc vfScript) []map[string]any {
 			}
 			ev["out"] = got
 			ev["has"] = nameSet(st.D)
+			full := []int{}
+			if fch, ferr := m.ListEvents(ctx, nil, nil, false); ferr == nil {
+				for e := range fch {
+					full = append(full, nameOf(e.EventContext.Id))
+				}
+			}
+			ev["full"] = full
 		default:
 			vfInfra("unknown action %q", st.Act)
 		}
